@@ -65,8 +65,8 @@ Definition action_spans (a : gast) : list span :=
    - action spans have start <= end <= |src| and start on a boundary; their
      end is on a boundary with the proposed repair of the action span *)
 Definition yacc_error_spans_wellformed_stmt : Prop :=
-  forall (fixed fixed_aspan fixed_pspan : bool) (kind : ykind) (src : str) (r : top),
-    run_case fixed fixed_aspan fixed_pspan kind src = Done r ->
+  forall (fixed fixed_aspan fixed_pspan fixed_precused : bool) (kind : ykind) (src : str) (r : top),
+    run_case fixed fixed_aspan fixed_pspan fixed_precused kind src = Done r ->
     match r with
     | THeader => True
     | TResult a errs w =>
@@ -79,8 +79,8 @@ Definition yacc_error_spans_wellformed_stmt : Prop :=
 
 (* the positive statement about action spans on its own *)
 Definition yacc_action_span_boundary_fixed_stmt : Prop :=
-  forall (fixed fixed_pspan : bool) (kind : ykind) (src : str) a errs w,
-    run_case fixed true fixed_pspan kind src = Done (TResult a errs w) ->
+  forall (fixed fixed_pspan fixed_precused : bool) (kind : ykind) (src : str) a errs w,
+    run_case fixed true fixed_pspan fixed_precused kind src = Done (TResult a errs w) ->
     Forall (wf_span src) (action_spans a).
 
 (* the code as it is: an action span can end inside a multi-byte character
@@ -88,12 +88,12 @@ Definition yacc_action_span_boundary_fixed_stmt : Prop :=
    with [action] trimmed but [pos_action_start] before the blanks) *)
 Definition yacc_action_span_boundary_refuted_stmt : Prop :=
   exists (fixed : bool) (kind : ykind) (src : str) a w sp,
-    run_case fixed false true kind src = Done (TResult a [] w) /\
+    run_case fixed false true true kind src = Done (TResult a [] w) /\
     In sp (action_spans a) /\ ~ boundary src (snd sp).
 
 (* the hypothesis of the main statement is satisfiable with every kind of span
    present: an error with two spans, a warning, AST spans, an action span *)
 Definition yacc_spans_example_stmt : Prop :=
   exists src a errs ws,
-    run_case false false true KOriginal src = Done (TResult a errs (Done ws)) /\
+    run_case false false true true KOriginal src = Done (TResult a errs (Done ws)) /\
     error_spans errs <> [] /\ ws <> [] /\ ast_spans a <> [] /\ action_spans a <> [].
